@@ -627,7 +627,7 @@ func runC06One(t fataler, c c06Case) string {
 // directions, and sequences of Close/CloseNow calls.
 func TestC06Mixed(t *testing.T) {
 	rec := evid.For("C06")
-	rapid.Check(t, func(rt *rapid.T) {
+	checkProp(t, func(rt *rapid.T) {
 		kind := rapid.SampledFrom([]string{"liblib", "calls", "local", "recv"}).Draw(rt, "kind")
 		code := rapid.OneOf(
 			rapid.SampledFrom([]int{1000, 1001, 1002, 1003, 1007, 1008, 1009, 1010, 1011, 1012, 1013, 1014, 3000, 3999, 4000, 4999}),
